@@ -28,7 +28,7 @@ func init() {
 				if strings.HasPrefix(c.Tag, "F4-") {
 					opts.MaskImports = true // whether the matched import stays is C11's subject
 				}
-				o = judgeModelBoth(env, &MCase{Change: c.Changes[0], File: c.File, Tag: c.Tag}, opts, 1).Out
+				o = judgeModelBoth(env, &MCase{Change: c.Changes[0], File: c.File, Tag: c.Tag, Decoy: c.Decoy}, opts, 1).Out
 			} else {
 				o = judgeSeqBoth(env, c, canon.Options{KeepParens: true})
 			}
@@ -168,6 +168,15 @@ func c02Gen(tier string, emit func(any)) {
 			}
 			file := "package p\n\nfunc _() {\n\t" + strings.Join(seq, "\n\t") + "\n}\n"
 			emit(&SCase{Changes: []*model.Change{ch}, File: file, Tag: "F2-leak-sites/" + ch.Lines[0].Text})
+			if len(seq) >= 2 {
+				// the same parsed patch was applied before to a file of the same name whose candidates sit at the same
+				// positions with other contents (the sequence reversed): nothing of that attempt is remembered
+				rev := append([]string{}, seq...)
+				for i, j := 0, len(rev)-1; i < j; i, j = i+1, j-1 {
+					rev[i], rev[j] = rev[j], rev[i]
+				}
+				emit(&SCase{Changes: []*model.Change{ch}, File: file, Decoy: "package p\n\nfunc _() {\n\t" + strings.Join(rev, "\n\t") + "\n}\n", Tag: "F2-leak-decoy/" + ch.Lines[0].Text})
+			}
 			// the same candidates nested as arguments of one call: attempts enclose each other
 			if len(seq) >= 2 {
 				file2 := "package p\n\nvar _ = h(" + strings.Join(seq, ", ") + ")\n"
